@@ -165,6 +165,18 @@ def _pal_scale_down(p):
     p.scale = float(2 ** -30)
 
 
+def _pal_scale_tiny(p):
+    # subnormal range: totals of a few units are below 1e-308 (reciprocals overflow, quotients do not)
+    p.scale = float(2 ** -1040)
+
+
+def _pal_trail(p):
+    # IDs and metadata text that END with a backslash (the last character before the closing quote in JSON
+    # text is then an escaped backslash), and carry brackets and a quote inside
+    p.idmap = lambda tok: "[" + tok + "]\"{" + "\\"
+    p.strmap = lambda tok: tok + "}]\\" if tok not in ("", ) else tok
+
+
 def _pal_adversarial(p):
     # exact images for a handful of abstract values; data-moving calls only
     p.special = {Fraction(1): 1e-7, Fraction(2): float(2 ** 53 + 2), Fraction(3): 0.1 + 0.2,
@@ -175,7 +187,7 @@ def _pal_adversarial(p):
                  Fraction(20): 123456789.125}
 
 
-PALETTES = {"ctrl": _pal_ctrl, "unicode": _pal_unicode, "numeric_ids": _pal_numeric_ids, "case_ids": _pal_case_ids,
+PALETTES = {"scale_tiny": _pal_scale_tiny, "trail": _pal_trail, "ctrl": _pal_ctrl, "unicode": _pal_unicode, "numeric_ids": _pal_numeric_ids, "case_ids": _pal_case_ids,
             "long_ids": _pal_long_ids, "scale_up": _pal_scale_up, "scale_down": _pal_scale_down,
             "adversarial": _pal_adversarial}
 ID_PALETTES = ["plain", "unicode", "numeric_ids", "case_ids", "long_ids"]
